@@ -250,8 +250,9 @@ func addressKeyOK(v ssa.Value) (bool, string) {
 // same type (a function returning bool that indexes both) decides equality only
 // if it compares the two lengths for equality; a one-sided length test makes it
 // a prefix match.
-func sliceEqualityLint(p *Prog, r *Report, rule string) {
-	r.Rule(rule, "every hand-written element-wise comparison of two slices of one type compares their lengths for equality (no prefix matching of entity addresses); the use-case look-up compares addresses with such a helper or with reflect.DeepEqual/slices.Equal")
+// sliceEqualityHelpers: the generic part of the lint (shared by every property
+// whose registries are keyed by entity addresses).
+func sliceEqualityHelpers(p *Prog, r *Report, rule string) int {
 	n := 0
 	for _, fn := range p.RepoFns("model", "spine", "util") {
 		if fn.Signature.Results().Len() != 1 || !isBoolType(fn.Signature.Results().At(0).Type()) {
@@ -301,7 +302,16 @@ func sliceEqualityLint(p *Prog, r *Report, rule string) {
 			}
 		}
 	}
+	if n == 0 {
+		r.Pass(rule, "hand-written slice comparisons", "", "none in the repository: addresses are compared with reflect.DeepEqual / slices.Equal")
+	}
 	r.Stat(rule+".hand-written slice comparisons", n)
+	return n
+}
+
+func sliceEqualityLint(p *Prog, r *Report, rule string) {
+	r.Rule(rule, "every hand-written element-wise comparison of two slices of one type compares their lengths for equality (no prefix matching of entity addresses); the use-case look-up compares addresses with such a helper or with reflect.DeepEqual/slices.Equal")
+	sliceEqualityHelpers(p, r, rule)
 	// the look-up itself: every condition on the entry's entity address is one of the accepted primitives
 	idx := p.Method("model", "NodeManagementUseCaseDataType", "useCaseInformationIndex")
 	if idx == nil {
